@@ -9,6 +9,7 @@
 -/
 import LibfiveProofs.Marching
 import LibfiveProofs.MarchingTables
+import LibfiveProofs.Pool
 
 namespace Libfive.C03
 open Libfive.Marching Generated.MeshTables
@@ -88,14 +89,35 @@ theorem marching_closed_balanced (s : Vid → Bool) (ts : List Tet) (H : HypBal 
     (dirEdges (marchTets s ts)).count e = (dirEdges (marchTets s ts)).count (rev e) :=
   count_eq_of_wsum_zero (fun w hw => marchTets_boundary_zero s ts H w hw) e
 
-/- **marching_manifold — stated, NOT proved.**  Under (H) and if moreover all tets have four
-   distinct vertices and no two tets have the same vertex set, every directed edge occurs AT MOST
-   ONCE in `dirEdges (marchTets s ts)` (edge-manifoldness of the simplex / hybrid output):
-     ∀ e, (dirEdges (marchTets s ts)).count e ≤ 1.
-   Sketch: a side on a face is emitted once per tet containing the face with the orientation
-   induced by that tet (`tet_face_local`), and (H) gives exactly one tet per orientation; an interior
-   side belongs to one tet only and occurs once per direction (`tet_face_local`, last clause).
-   The "at most once" clause is checked on every real mesh by the oracle of tools/checks/c03.py. -/
+/-- **marching_manifold_per_tet (proved part of the edge-manifold clause).**  A tet with four
+    distinct vertices emits every directed side at most once (complete table: no row repeats a
+    directed side; the embedding of tet edges is injective). -/
+theorem marching_manifold_per_tet (s : Vid → Bool) (t : Tet) (h : t.distinct) (e : Edge (SV Vid)) :
+    (dirEdges (marchTet s t)).count e ≤ 1 :=
+  List.nodup_iff_count_le_one.mp (marchTet_edges_nodup s t h) e
+
+/- **marching_manifold — cross-tet part stated, NOT proved.**
+     theorem marching_manifold (s : Vid → Bool) (ts : List Tet) (H : HypH s (allFaces ts))
+         (hd : ∀ t ∈ ts, t.distinct) (hv : TetSetsDistinct ts) (e : Edge (SV Vid)) :
+         (dirEdges (marchTets s ts)).count e ≤ 1
+   The two hypotheses beyond (H) are exactly what is needed:
+   * `hd` (four distinct vertices per tet): otherwise a tet edge `(a, a)` or two equal surface
+     vertices make self-loops, which every count sees twice;
+   * `hv` (`TetSetsDistinct`: no two tets with the same vertex set): (H) alone allows two tets glued
+     along all four faces (the two-tet triangulation of S³); for a 2-2 mask both emit a quad split by
+     a diagonal, and the diagonal (an interior side, spanning all four vertices) can then occur twice
+     in the same direction.
+   Proof sketch of the missing part, given `marching_manifold_per_tet`, `tet_face_local` and
+   `tet_boundary_is_face_segments`: (1) a side whose two tet edges span four distinct vertex ids is
+   interior to the tet with exactly that vertex set, which is unique by `hv`; (2) a side spanning
+   three ids `{a,b,c}` lies on the face `{a,b,c}` of every tet emitting it; by (H) that face has exactly
+   two incidences, with opposite parity, emitting `seg` and its reverse (`seg_reverse`), and
+   `seg ≠ rev seg` because the two surface vertices differ (`hd`); hence one incidence per direction.
+   Step (2) needs "the sorted face triple is determined by the side" (permutation invariance of
+   `canon`), which is not formalised.
+   All three hypotheses are CHECKED on every dumped complex by the driver (`H`, tet-repeats-vertex,
+   `V <id> ok|FAIL`), and the conclusion is checked on every real simplex / hybrid mesh by the oracle
+   of tools/checks/c03.py (edge-used-more-than-once-per-direction). -/
 
 /-- **per-tet stage.**  The boundary of the triangles of ONE tet is the sum of the segments of its
     four oriented faces (for any vertex ids, distinct or not, and any antisymmetric weight). -/
@@ -136,6 +158,24 @@ theorem hypHRef_sound (s : Vid → Bool) (F : List Face) (h : hypHRef s F = true
   have := h f hf
   simp only [hu, Bool.false_or, Bool.and_eq_true, beq_iff_eq] at this
   exact this
+
+/-! ## (b') the pending-counter protocol (imported from the pool model, LibfiveProofs/Pool.lean) -/
+
+/-- **collect_children_once.**  C03 consequence of `Libfive.Pool.last_arriver` for a branch of the
+    octree with `2^N` children (`pending` initialised to `2^N - 1`): for ANY interleaving of the
+    children's `install` / `pending--` steps admitted by the protocol, `collectChildren` (run by
+    the children whose `pending--` observed 0) runs at most once; not before all `2^N` children have
+    arrived; and once all have arrived it has run exactly once, by the LAST arriver, at a moment
+    when every child pointer is installed.  So cell merging / `collectChildren` sees a complete
+    set of children exactly once per branch, whatever the schedule. -/
+theorem collect_children_once (N : Nat) (tr : List Libfive.Pool.BEv)
+    (hev : ∀ e ∈ tr, e.child < 2 ^ N) (st : Libfive.Pool.BState)
+    (hr : Libfive.Pool.brun (Libfive.Pool.BState.init (2 ^ N)) tr = some st) :
+    st.collectors.length ≤ 1 ∧
+    (st.arrived.length < 2 ^ N → st.collectors = []) ∧
+    (st.arrived.length = 2 ^ N → ∃ i rest, st.arrived = i :: rest ∧ st.collectors = [i] ∧
+        ∀ j, j < 2 ^ N → j ∈ st.installed) :=
+  Libfive.Pool.last_arriver (2 ^ N) (Nat.two_pow_pos N) tr hev st hr
 
 /-! ## (c) dual contouring -/
 
@@ -189,5 +229,11 @@ example : dcQuad 1 2 3 4 true false = [(1, 2, 3), (3, 2, 4)] := by decide
 example : dcQuad 1 2 2 4 true false = [(2, 2, 4)].filter (fun _ => false) ++ [] := by decide
 example : dcQuad 1 1 3 4 false true = [(1, 3, 4), (1, 4, 1)].filter (fun t => t.1 != t.2.2) := by decide
 example : Antisym (indic ((1, 2) : Edge Vid)) := indic_antisym _
+/-- an admitted interleaving of a quadtree branch (N = 2): all install, then all decrement -/
+example : (Libfive.Pool.brun (Libfive.Pool.BState.init (2 ^ 2))
+    [.install 0, .install 1, .dec 1, .install 2, .install 3, .dec 0, .dec 3, .dec 2]).map (·.collectors) = some [2] := by
+  decide
+example : TetSetsDistinct sphereComplex := by
+  unfold TetSetsDistinct sphereComplex; decide
 
 end Libfive.C03
